@@ -989,6 +989,19 @@ FLUSH_JOB_ZUC256_EEA3:
         vmovdqa32       [state + _zuc_state + i*64]{k1}, zmm0
 %assign i (i + 1)
 %endrep
+        ; Clear keystream of lane that is returned
+        ; (8 x 16 bytes at KS + (lane % 4) * 512 + (lane / 4) * 16 + {0, 64, ..., 448})
+        mov             tmp, idx
+        and             tmp, 3
+        shl             tmp, 9
+        shr             idx, 2
+        shl             idx, 4
+        add             idx, tmp
+%assign i 0
+%rep 8
+        vmovdqa         [state + _zuc_args_KS + idx + i*64], xmm0
+%assign i (i + 1)
+%endrep
 %endif
 
 %%return_submit_eia3:
@@ -1191,6 +1204,26 @@ FLUSH_JOB_ZUC256_EEA3:
         vmovdqa32       [state + _zuc_state + i*64]{k1}, zmm0
 %assign i (i + 1)
 %endrep
+        ; Clear keystream of the same lanes
+        ; (8 x 16 bytes at KS + (lane % 4) * 512 + (lane / 4) * 16 + {0, 64, ..., 448})
+        kmovw           DWORD(tmp3), k1
+%%clear_ks_flush_eia3:
+        bsf             DWORD(tmp4), DWORD(tmp3)
+        jz              %%clear_ks_done_flush_eia3
+        btr             DWORD(tmp3), DWORD(tmp4)
+        mov             DWORD(tmp), DWORD(tmp4)
+        and             DWORD(tmp), 3
+        shl             DWORD(tmp), 9
+        shr             DWORD(tmp4), 2
+        shl             DWORD(tmp4), 4
+        add             tmp4, tmp
+%assign i 0
+%rep 8
+        vmovdqa         [state + _zuc_args_KS + tmp4 + i*64], xmm0
+%assign i (i + 1)
+%endrep
+        jmp             %%clear_ks_flush_eia3
+%%clear_ks_done_flush_eia3:
 %endif
 
 %ifdef SAFE_DATA
